@@ -188,7 +188,9 @@ func recordArtifacts(paths []string, hashAlgorithms []string, gitignorePatterns 
 					visitedSymlinks.Add(path)
 					// We recursively call recordArtifacts() to follow
 					// the new path.
-					evalArtifacts, evalErr := recordArtifacts([]string{evalSym}, hashAlgorithms, gitignorePatterns, lStripPaths, lineNormalization, followSymlinkDirs, visitedSymlinks)
+					// Prefixes are not stripped from the paths below the target,
+					// but from the resulting paths below the symlink (see below)
+					evalArtifacts, evalErr := recordArtifacts([]string{evalSym}, hashAlgorithms, gitignorePatterns, nil, lineNormalization, followSymlinkDirs, visitedSymlinks)
 					if evalErr != nil {
 						return evalErr
 					}
@@ -198,12 +200,22 @@ func recordArtifacts(paths []string, hashAlgorithms []string, gitignorePatterns 
 					// be reached once more via another route.
 					visitedSymlinks.Remove(path)
 					for key, value := range evalArtifacts {
+						symlinkPath := path
 						if targetIsDir {
-							symlinkPath := filepath.Join(path, strings.TrimPrefix(key, evalSym))
-							artifacts[symlinkPath] = value
-						} else {
-							artifacts[path] = value
+							symlinkPath = filepath.Join(path, strings.TrimPrefix(key, evalSym))
 						}
+						// Artifacts found through a symlink are named, stripped
+						// and checked for uniqueness like all other artifacts
+						for _, strip := range lStripPaths {
+							if strings.HasPrefix(symlinkPath, strip) {
+								symlinkPath = strings.TrimPrefix(symlinkPath, strip)
+								break
+							}
+						}
+						if _, exists := artifacts[symlinkPath]; exists {
+							return fmt.Errorf("left stripping has resulted in non unique dictionary key: %s", symlinkPath)
+						}
+						artifacts[symlinkPath] = value
 					}
 					return nil
 				}
